@@ -48,6 +48,16 @@ REQUIRED = {
     "ref/face_area:nonconvex_face": 80, "ref/face_normals:nonconvex_face": 150, "ref/total_area:nonconvex_faces": 5,
     "coverage/ref:face_area_on_nonconvex_faces_star_shaped_from_vertex_mean": 60,
     "reuse": 15000,
+    "ref/triangle_aspect_ratio": 4000, "ref/face_near_border:dist=default": 4000, "ref/face_near_border:dist=1": 4000,
+    "ref/face_near_border:dist=3": 4000, "ref/face_near_border:dist=6": 4000, "ref/border_normals": 3000,
+    "ref/curvature_matrices": 1500, "ref/cell_faces_on_boundary": 800,
+    "ref/parallel_transport_curvature:flat": 800, "ref/parallel_transport_curvature:scv": 200,
+    "rigid/triangle_aspect_ratio": 1000, "rigid/border_normals": 800, "rigid/curvature_matrices": 1500,
+    "rigid/parallel_transport_curvature:scv": 600, "rigid/face_near_border:dist=default": 1000, "rigid/cell_faces_on_boundary": 200,
+    "scale/triangle_aspect_ratio": 1000, "scale/border_normals": 800, "scale/curvature_matrices": 1500,
+    "scale/parallel_transport_curvature:scv": 600,
+    "history/triangle_aspect_ratio": 1000, "history/face_near_border:dist=default": 1000, "history/border_normals": 1000,
+    "history/curvature_matrices": 1500, "history/cell_faces_on_boundary": 300,
 }
 CASE_TIMEOUT = {"quick": 240.0, "thorough": 600.0}
 ASSUMPTIONS = [
@@ -62,7 +72,15 @@ ASSUMPTIONS = [
     "does not fix any numbering convention itself",
     "helper attributes the library caches by design (face_corners 'angles' for angle_defects, face_corners 'cotan' for cotan_weights, faces "
     "'normals' for vertex_normals) may stay behind after a persistent run; nothing may stay behind after a non-persistent run",
-    "border_normals, triangle_aspect_ratio, curvature_matrices, face_near_border and the 'sum' weighting (not an average) are not judged",
+    "the 'sum' weighting (not an average) is driven but not judged",
+    "triangle_aspect_ratio = abc/(8(s-a)(s-b)(s-c)) on triangles and -1 on other faces (docstring); face_near_border(dist) = faces at dual "
+    "edge-adjacency distance < dist from a face with a border edge ('all faces with a path of length < dist'), dist in {default 2, 1, 3, 6}; "
+    "cell_faces_on_boundary = number of faces of the tet shared with no other cell; curvature_matrices[e] = angle between the two face normals "
+    "* outer(unit edge, unit edge), zero on border edges, judged where both faces are triangles / planar convex, conjugated by a rigid motion; "
+    "border_normals: only unit length on border vertices, nothing on interior vertices, and rigid / scale / renumbering equivariance are judged "
+    "(the docstring fixes no more); parallel_transport_curvature: zero on planar meshes (canonical flat connection: every face; vertex "
+    "connection: faces with three interior vertices) and rigid / scale / renumbering invariance - values on curved meshes are not judged; a "
+    "connection object that cannot be built is C18's business (noted)",
     "mean_*(n=k) is read as the mean of the first min(k, count) elements ('early stopping')",
 ]
 
